@@ -1,7 +1,7 @@
 #!/bin/sh
 # tools/confirm_seed.sh <Cxx> <A|B> : independently confirm a sub-agent's seeded change in a fresh scratch worktree, then keep it
 set -e
-P=$1; X=$2; SRC=/tmp/wt_$P/_out; W=/tmp/cs_${P}_$X
+P=$1; X=$2; SRC=${SEED_SRC:-/tmp/wt_$P}/_out; W=/tmp/cs_${P}_$X; SUF=${SEED_SUFFIX:-}
 [ -f $SRC/patch$X.diff ] || { echo "no patch"; exit 2; }
 git -C /repo worktree add -q --detach $W HEAD
 cleanup(){ git -C /repo worktree remove --force $W 2>/dev/null || true; }
@@ -12,7 +12,7 @@ git apply $SRC/patch$X.diff
 PYTHONPATH=$W /venv/bin/python -m pytest -q -p no:cacheprovider glom/test > /tmp/cs_suite.out 2>&1 || true
 tail -1 /tmp/cs_suite.out | grep -q "1 failed, 199 passed" || { echo "FAIL: suite differs"; tail -3 /tmp/cs_suite.out; exit 1; }
 if PYTHONPATH=$W /venv/bin/python $SRC/demo$X.py >/tmp/cs_mut.out 2>&1; then echo "FAIL: demo passes with patch"; exit 1; fi
-D=/verif/seeded/$P-$X; mkdir -p $D
+D=/verif/seeded/$P-$X$SUF; mkdir -p $D
 cp $SRC/patch$X.diff $D/patch.diff; cp $SRC/demo$X.py $D/demo.py
 /venv/bin/python - "$P" "$X" "$D" "$SRC" <<'PY'
 import json, sys, re
@@ -24,4 +24,4 @@ json.dump({'property': p, 'label': x, 'source': 'independent sub-agent given onl
                          'demo_with_patch': 'non-zero exit', 'how': 'tools/confirm_seed.sh in a fresh scratch worktree of /repo HEAD'}},
           open(d + '/meta.json', 'w'), indent=1)
 PY
-echo "CONFIRMED $P-$X: $(tail -1 /tmp/cs_mut.out | cut -c1-150)"
+echo "CONFIRMED $P-$X$SUF: $(tail -1 /tmp/cs_mut.out | cut -c1-150)"
